@@ -288,6 +288,24 @@ let q_struct (k : int) (it : item) (args : string list) : string =
         (ocaml_of_coq (show_stmt cnt prog_nth)) (ocaml_of_coq (show_stmt cnt prog_next_back))
         (ocaml_of_coq (show_stmt cnt prog_size_hint)) (String.concat ";" (List.map ctor_str (ic_table c))))
       (memo iter_cache k (fun () -> gen_iter it))
+  | ["Display"] ->
+    res_str (fun c ->
+      let single = function
+        | SingleTuple r -> "field0:" ^ (if r then "v" else "r")
+        | SingleNamed (n, r) -> string_of_str n ^ ":" ^ (if r then "v" else "r") in
+      let arm (i, b) = Printf.sprintf "v%d:%s" (i_nat i) (match b with
+        | DStr l -> "S:" ^ hex_of_str l
+        | DInner sg -> "I:" ^ single sg
+        | DArgsNamed (l, names) -> "AN:" ^ hex_of_str l ^ ":" ^ String.concat "," (List.map string_of_str names)
+        | DArgsPos (l, n) -> "AP:" ^ hex_of_str l ^ ":" ^ string_of_int (i_nat n)) in
+      "[" ^ String.concat ";" (List.map arm c.mc_arms @ (if c.mc_wild_panic then ["W"] else [])) ^ "]") (gen_display it)
+  | ["AsRefStr"] ->
+    res_str (fun c ->
+      let single = function
+        | SingleTuple r -> "field0:" ^ (if r then "v" else "r")
+        | SingleNamed (n, r) -> string_of_str n ^ ":" ^ (if r then "v" else "r") in
+      let arm (i, b) = Printf.sprintf "v%d:%s" (i_nat i) (match b with AStr l -> "S:" ^ hex_of_str l | AInner sg -> "I:" ^ single sg) in
+      "[" ^ String.concat ";" (List.map arm c.mc_arms @ (if c.mc_wild_panic then ["W"] else [])) ^ "]") (gen_as_ref it)
   | _ -> failwith "no structural summary for this derive"
 
 (* ----- Display & co ----- *)
